@@ -185,8 +185,12 @@ func sendTCP(conn *net.TCPConn, b []byte) ([]byte, error) {
 	}
 	s := binary.BigEndian.Uint32(sh)
 
-	rb := make([]byte, s, s)
-	_, err = io.ReadFull(conn, rb)
+	// Read at most the announced number of bytes, growing the buffer as data arrives, so that the memory
+	// used is bounded by what the peer actually sends rather than by the length it announces.
+	rb, err := io.ReadAll(io.LimitReader(conn, int64(s)))
+	if err == nil && uint32(len(rb)) != s {
+		err = io.ErrUnexpectedEOF
+	}
 	if err != nil {
 		return r, fmt.Errorf("error reading response: %v", err)
 	}
